@@ -35,6 +35,16 @@ def run(c):
         c.sample(r["sample"])
         for m in r["first"]:
             c.violate("%s: text %r range [%d, %d)" % (m["what"], m["text"], m["s"], m["e"]), dict(m, kind="replay-listing"))
+    # the range of an unexpected symbol is that symbol (its whole grapheme cluster): all texts over the error alphabets, the
+    # one with context-dependent cluster boundaries included, replayed into the real tokenizer
+    from checks import lexcommon as lc
+    for alpha in ("AErrors", "AClusters"):
+        stl = vf.tlc_generate("MC_Lexer", lc.lexer_cfg(alpha, 5 if q else 6, lc.ALPHABETS[alpha]), "lex-%s-%d" % (alpha, 5 if q else 6), timeout=3000)
+        c.add_tlc(stl, "all texts over %s with the prescribed diagnostics; generation" % alpha)
+        rr = lc.replay(c, stl, "c15-" + alpha, sig=True)
+        for m in rr["first"]:
+            if m["got"].get("errs") != m["want"].get("errs"):
+                c.violate("unexpected-symbol diagnostics differ on %r" % m["text"], {"kind": "replay-lex-errors", "text": m["text"], "got": m["got"].get("errs"), "want": m["want"].get("errs")})
     # probe (i)
     rec = vf.first_tag(vf.tlc_generate("MC_Listing", runs[0][1], runs[0][0])["out"], "LIST", 3000)
     rec = next(x for x in rec if x["lines"] and x["must"][0])
